@@ -13,7 +13,8 @@ CONSTANTS Proposers,     \* nodes on which clients call propose(); the k-th call
           Loss,          \* TRUE: any network message may be lost (for safety this adds nothing:
                          \* a lost message is one that is never delivered)
           Quiet          \* TRUE: clients call propose() only while no Prepare is in flight (a smaller
-                         \* envelope used by the quick-tier sensitivity run of the restart deviation)
+                         \* envelope: quick-tier run of the corrected design and the sensitivity run
+                         \* of the restart deviation; the thorough tier explores Quiet = FALSE)
 
 VARIABLES node,      \* [Nodes -> node state]
           msgs,      \* bag of messages / timers in flight
